@@ -282,6 +282,7 @@ def configs(
         divmods=True,
         boards=(1, 1, 1, 2, 3),
         unknown=False,
+        rigs=(None,),
         strict=None,
         min_players=2,
         max_players_cap=9,
@@ -369,6 +370,7 @@ def configs(
         profile=draw(st.sampled_from(profiles)),
         strict=draw(st.booleans()) if strict is None else strict,
         unknown=bool(unknown) and draw(st.booleans()),
+        rig=draw(st.sampled_from(rigs)),
     )
     return cfg
 
